@@ -59,6 +59,9 @@ func init() {
 	register(&Property{ID: "C09", Level: "exploration",
 		Rule:  "cases = curated corpus + seeded random descriptors; per selected type N histories CopyTo(s0); CopyTo(s1); ... on one object starting from the empty schema-typed object (2 steps quick, 5 thorough), sources alternating dense / mixed / sparse / zero / boundary lattice modes so that every list grows, shrinks, empties and becomes nil and maps gain and lose keys; after every step the object is judged against the last source and the object before the step (counter refresh-attributes-judged) and the step is repeated to check idempotence; distinct = distinct (case, type, sequence of shape signatures)",
 		Check: stdL2("C09", 8, 150)})
+	register(&Property{ID: "C06", Level: "fault_enumeration",
+		Rule:  "cases = curated corpus + seeded random descriptors; CopyFrom: per selected type B conforming base objects (fully known plan / masked plan); every fault position reachable through known parents is enumerated (attributes at every depth, list elements, map values; counter from-fault-positions) and every single fault at it is applied one at a time (delete, wrong Go type, nil interface, nil Attrs, nil Elems, wrong-typed / nil element; counter from-single-faults), then random sets of 2-6 non-nested faults (counter from-fault-sets); oracle: no panic, one error diagnostic per visited fault naming the model's field path, total count equal to the number of visited faults, every field outside the faulted attributes equal to the unfaulted decode. CopyTo: for a dense source value every attribute type of every object-type level the source reaches (top level, nested objects, list and map element types) is removed or replaced one at a time (counter to-type-faults); oracle: no panic, one missing-attribute diagnostic per visit naming the field, all other attributes identical to the unfaulted run; distinct = distinct (fault kind, field path) pairs",
+		Check: stdL2("C06", 6, 120)})
 	register(&Property{ID: "C20", Level: "exploration",
 		Rule:  latticeRule + "one evaluation = one CopyTo into an empty object followed by the null-ness walk over every non-element attribute (counter judged-attributes)",
 		Check: stdL2("C20", 8, 150)})
